@@ -432,4 +432,8 @@ MUTANTS = [
     M("D3-2-filter-dropped", ["C10"], (TK, "            .filter(|card_pair| card_pair[0] != card_pair[1])\n", ""), base="D3-2"),
     M("D3-2-weight-offset", ["C05"], (TK, "                    parse_probability(&s[4..]),\n                )\n            })\n            .ok_or(())", "                    parse_probability(&s[5..]),\n                )\n            })\n            .ok_or(())"), base="D3-2"),
     M("D3-2-guard-dropped", ["C09"], (TK, "        if !single_card_pair_regex.is_match(s) {\n            return Err(());\n        }\n", ""), base="D3-2"),
+    M("benign-D5-2-early-return-map-err", ["C05", "C09", "C13"], base="D5-2", benign=True),
+    M("D5-2-wrong-slice", ["C13"], (CD, "        let suit = Suit::from_str(&v[1..2]).map_err(invalid)?;", "        let suit = Suit::from_str(&v[0..1]).map_err(invalid)?;"), base="D5-2"),
+    M("D5-2-no-ascii", ["C09"], (CD, "        if v.len() != 2 || !v.is_ascii() {", "        if v.len() != 2 {"), base="D5-2"),
+    M("D5-2-len-3", ["C13"], (CD, "        if v.len() != 2 || !v.is_ascii() {", "        if v.len() != 3 || !v.is_ascii() {"), base="D5-2"),
 ]
